@@ -52,11 +52,6 @@ def auditedEffectful : List (String × Nat × String) := [
   -- one sum tree per synthetic denom under its own store prefix (disjoint keys), no events, called only from the
   -- v19 upgrade handler (infinite gas meter)
   ("x/lockup/keeper/lock.go:Keeper.RebuildSuperfluidAccumulationStoresForDenom", 1, "independent"),
-  -- SetPoolForDenomPair per (base denom, denom): distinct keys, so the final state is order independent, BUT the
-  -- per-entry gas differs with the key length: inside MsgSetBaseDenoms the gas consumed when an out-of-gas panic
-  -- fires in this loop (= GasUsed, hashed into LastResultsHash) depends on the order.  Finding F19a (engine probe).
-  ("x/protorev/keeper/epoch_hook.go:Keeper.UpdatePools", 1, "ORDER-DEPENDENT"),
-  ("x/protorev/keeper/epoch_hook.go:Keeper.UpdatePools", 2, "ORDER-DEPENDENT"),
   -- pure recursive any-match over a decoded JSON value (no context, no gas): `exists` is order independent
   ("x/smart-account/authenticator/message_filter.go:checkForFloats", 1, "independent"),
   -- builds permAddrs[name] / permAddrMap[address] at keeper construction: distinct keys
@@ -88,8 +83,7 @@ def orderDependent : List (String × Nat) :=
   ((auditedEffectful.filter (fun x => x.2.2 == "ORDER-DEPENDENT")).map siteKey)
 
 theorem order_dependent_sites : orderDependent =
-    [("x/protorev/keeper/epoch_hook.go:Keeper.UpdatePools", 1), ("x/protorev/keeper/epoch_hook.go:Keeper.UpdatePools", 2),
-     ("wasmbinding/stargate_whitelist.go:GetStargateWhitelistedPaths", 1)] := by decide
+    [("wasmbinding/stargate_whitelist.go:GetStargateWhitelistedPaths", 1)] := by decide
 
 /-- wall clock / goroutine / math-rand sites of the same files, audited:
  clock: InitOsmosisAppForTestnet (testnet tooling), v23 upgrade handler (log line only), epochs BeginBlocker and the
